@@ -314,7 +314,7 @@ def run(rep: Report, rng, tier: str, known: dict, search: bool = False) -> None:
 def evidence(rep: Report) -> None:
     write_evidence(
         rep,
-        rule="cases = expressions from the rule-directed stream (every rule's left-hand side with random holes, parameter pairs n,m in 1..6 incl. equal and common-factor pairs, bases e/2/0.5/10, arity 0-3 and random positions in n-ary nodes, also planted under random parents), random trees, and inputs that exhaust the step budget; per case: the full step trace (event, size) and the flagged final form against the model, _normalize() against the model, the as_expression() carrier, and the semantic oracle at 3/6 grid points for the normal form and every third intermediate form; non-trivial = at least 3 steps; distinct by wire form",
+        rule="cases = expressions from the rule-directed stream (every rule's left-hand side with random holes, parameter pairs n,m in 1..6 incl. equal and common-factor pairs, bases e/2/0.5/10, arity 0-3 and random positions in n-ary nodes, also planted under random parents), random trees, and inputs that exhaust the step budget; per case: the full step trace (event, size) and the flagged final form against the model, _normalize() against the model, the as_expression() carrier, and the semantic oracle at 3/6 grid points for the normal form and every third intermediate form; non-trivial = at least 3 steps; distinct by wire form; plus, when the implementation has rewrite rules the model does not know, shapes built from the constructor names and literals in those rules' source text; a value difference is reported only beyond the first-order effect of moving every constant the simplifier created by 8 ulp",
         trusted=common.TRUSTED + ["private entry points _take_reduction_step/_normalize/_reduce_* are wrapped in-process (harness/instrument.py); no change to the repository"],
         assumptions=[common.ASSUME_RANGE, "K1 (recorded finding) reported as KNOWN-FINDING when its signature matches"],
     )
